@@ -341,7 +341,7 @@ def check_C05(run):
         S = types[tid]
         for v in pick(vs, 20 if thorough else 4, rng):
             w = {"c": "w", "wk": "pedantic", "cap": BIGCAP, "items": [{"tid": tid, "v": v}], "nolog": 1}
-            r = {"c": "rcuts", "tid": tid, "rks": all_reader_kinds(S), "src": "last"}
+            r = {"c": "rcuts", "tid": tid, "rks": all_reader_kinds(S), "src": "last", "populated": 1}
             handle_opts(S, w, r)
             groups.append([w, r])
             run.distinct.add((tid, vf.digest(v)))
@@ -356,7 +356,7 @@ def check_C05(run):
         for rt in readers:
             v = full if n % 3 else table_patterns(types[wt], full, [((1 << nact) - 1) & (0x5555 << (n % 2))])[0]
             w = {"c": "w", "wk": "pedantic", "cap": BIGCAP, "items": [{"tid": wt, "v": v}], "nolog": 1}
-            r = {"c": "rcuts", "tid": rt, "rks": all_reader_kinds(types[rt]), "src": "last"}
+            r = {"c": "rcuts", "tid": rt, "rks": all_reader_kinds(types[rt]), "src": "last", "populated": 1}
             groups.append([w, r])
             run.distinct.add((wt, rt, vf.digest(v)))
             n += 1
